@@ -58,6 +58,11 @@ class Engine(BaseEngine):
             regs = bytearray([v] * 256)
             out.append(("hex-uniform", "hll_hex " + C.tb(hexs(regs))))
         out.append(("hex-empty", "hll_hex " + C.tb(hexs(bytes(256)))))
+        # dense states: no empty register, all registers small (the small-range correction has nothing to count)
+        for hi in (1, 2, 3, 5, 8):
+            for _ in range(4 if tier == "quick" else 40):
+                regs = bytes(rng.randrange(1, hi + 1) for _ in range(256))
+                out.append(("hex-dense", "hll_hex " + C.tb(hexs(regs))))
         for _ in range(100 if tier == "quick" else 3000):
             regs = bytes(rng.choice([rng.randrange(0, 12), rng.randrange(256), 0]) for _ in range(256))
             s = hexs(regs)
@@ -78,6 +83,9 @@ class Engine(BaseEngine):
         for card in (100, 300, 1000, 3000, 10000) + ((100000,) if tier != "quick" else ()):
             for tr in range(trials):
                 out.append(("envelope", "hll_env %s %s" % (C.tn(card), C.tn(rng.getrandbits(62)))))
+        # very large cardinalities (beyond 2^32/30, where a 32-bit large-range correction would kick in); release build only
+        for card in ((200000000,) if tier == "quick" else (150000000, 200000000, 1000000000, 2600000000)):
+            out.append(("envelope-large", "hll_env %s %s" % (C.tn(card), C.tn(rng.getrandbits(62)))))
         return out
 
     def judge(self, gcls, line, model_out, impl_outs):
@@ -87,6 +95,8 @@ class Engine(BaseEngine):
             i = C.kv(o)
             if cmd == "hll_env":
                 card = int(line.split(" ")[1][2:])
+                if i.get("est") == "skipped-in-debug-build":
+                    continue
                 if i.get("est") in (None, "panic"):
                     return Verdict(oracle_ok=False, cls="estimate-panics", detail="[%s] estimate_count panicked" % prof, outcome="panic")
                 est = int(i["est"])
@@ -129,6 +139,13 @@ class Engine(BaseEngine):
                     inp = bytes.fromhex(line.split(" ")[1][2:]).decode()
                     if i["regs"] != inp.lower():
                         return Verdict(oracle_ok=False, cls="hex-roundtrip", detail="[%s] export != lowercase(import)" % prof, outcome="rt")
+                    # a mathematical upper bound of every HyperLogLog estimate of 256 registers: the raw estimate is at most
+                    # alpha*m*2^max(register), linear counting at most m*ln(m); anything beyond is not a finite count of this state
+                    regs_b = bytes.fromhex(inp)
+                    mx = max(regs_b)
+                    if mx <= 40 and int(i["est"]) > 1.1 * max(1420, 0.72 * 256 * (1 << mx)):
+                        return Verdict(oracle_ok=False, cls="estimate-not-finite",
+                                       detail="[%s] registers with maximum %d estimated as %s" % (prof, mx, i["est"]), outcome="est-huge")
                     if i["zeros"] == "256" and i["est"] != "0":
                         return Verdict(oracle_ok=False, cls="empty-not-zero", detail="[%s] empty sketch estimates %s" % (prof, i["est"]), outcome="empty")
                 mi = m["imp"].split(":")[0].replace("ok ", "ok").strip()
